@@ -5,4 +5,5 @@ CONSTANTS
   KeepHist = TRUE
   GateAtomic = TRUE
   NonIdemRetry = FALSE
+  Defect_WaitResultsOnly = FALSE
 INVARIANTS NoViolation EmitCase
